@@ -313,7 +313,7 @@ func c03Describe(x *c03Explicit, got int) string {
 }
 
 type c03Stats struct {
-	lines, lookups, sni, illposed, nontrivial, routed, unrouted, histories int64
+	lines, lookups, sni, illposed, nontrivial, routed, unrouted, histories, batches, concLookups int64
 }
 
 func c03RunExplicit(e *c03Env, x *c03Explicit, st *c03Stats) {
@@ -441,14 +441,94 @@ func c03Sample(u *c03Universe, l *c03Line) string {
 		strings.Join(rs, ", "), u.Hosts[l.H-1].String(), l.TLS, strings.Join(exp, " "))
 }
 
+// c03RunBatch: several requests in flight at the same time on ONE table with ONE glob cache (as in
+// the running proxy).  The specification is stateless: the route a request is served by depends on
+// the table and on the request alone, whatever other lookups are in progress.  The lines of the
+// batch are (request host, TLS) transitions of the same table.
+func c03RunBatch(u *c03Universe, lines []*c03Line, n int64, st *c03Stats) error {
+	if u == nil || len(lines) == 0 {
+		return nil
+	}
+	conv := func(ids []int) ([]c03Route, error) {
+		var rs []c03Route
+		for _, id := range ids {
+			pi, qi := (id-1)/u.NPath, (id-1)%u.NPath
+			if id < 1 || pi >= len(u.Pats) || qi >= len(u.Paths) {
+				return nil, fmt.Errorf("route index %d outside the universe", id)
+			}
+			rs = append(rs, c03Route{ID: id, Host: u.Pats[pi].String(), Path: strings.Join(u.Paths[qi], "")})
+		}
+		return rs, nil
+	}
+	routes, err := conv(lines[0].T)
+	if err != nil {
+		return err
+	}
+	dead, err := conv(lines[0].D)
+	if err != nil {
+		return err
+	}
+	order := int(n % 6)
+	tbl, err := c03Build(routes, dead, order, "text")
+	if err != nil {
+		return nil // reported by the sequential pass
+	}
+	e := &c03Env{}
+	e.cache(1000) // shared by all goroutines of the batch
+	atomic.AddInt64(&st.batches, 1)
+	var wg sync.WaitGroup
+	var stop int32
+	const goroutines, rounds = 8, 3
+	for g := 0; g < goroutines; g++ {
+		wg.Add(1)
+		go func(g int) {
+			defer wg.Done()
+			for r := 0; r < rounds*len(lines) && atomic.LoadInt32(&stop) == 0; r++ {
+				l := lines[(g*5+r)%len(lines)]
+				if l.H < 1 || l.H > len(u.Hosts) || len(l.W) != len(u.RPaths) {
+					continue
+				}
+				host := u.Hosts[l.H-1].String()
+				for q, row := range l.W {
+					for k, want := range row {
+						if want < 0 || k >= len(u.Combos) {
+							continue
+						}
+						x := &c03Explicit{Kind: "lookup", Routes: routes, Dead: dead, Builder: "text", Host: host, TLS: l.TLS == 1,
+							Path: strings.Join(u.RPaths[q], ""), Matcher: u.Combos[k].M, Glob: u.Combos[k].G == 1, Want: want, Cache: 1000, Order: order}
+						got, p, stack := c03Do(e, tbl, x)
+						atomic.AddInt64(&st.concLookups, 1)
+						if p != nil || got != want {
+							atomic.StoreInt32(&stop, 1)
+							f := c03Features(x, got)
+							f["concurrent"] = true
+							if p != nil {
+								f["clause"] = "panic"
+								verifx.Fail(map[string]any{"x": x}, f, "with %d goroutines looking up in the same table: panic: %v in %s\n%s", goroutines, p, c03Describe(x, 0), stack)
+							} else {
+								verifx.Fail(map[string]any{"x": x}, f, "with %d goroutines looking up in the same table (the same lookup alone is served correctly): %s", goroutines, c03Describe(x, got))
+							}
+							return
+						}
+					}
+				}
+			}
+		}(g)
+	}
+	wg.Wait()
+	return nil
+}
+
 func TestVerifC03(t *testing.T) {
 	seed := verifx.Seed()
 	type job struct {
-		u *c03Universe
-		l *c03Line
-		n int64
+		u     *c03Universe
+		l     *c03Line
+		n     int64
+		batch []*c03Line
 	}
 	jobs := make(chan job, 1024)
+	batchEvery := int64(verifx.EnvInt("VERIF_BATCH_EVERY", 1))
 	var st c03Stats
 	var wg sync.WaitGroup
 	var errMu sync.Mutex
@@ -461,7 +541,9 @@ func TestVerifC03(t *testing.T) {
 			e := &c03Env{} // GlobCache is not safe for concurrent use (C06): one per worker
 			for j := range jobs {
 				var err error
-				if j.l.X != nil {
+				if j.batch != nil {
+					err = c03RunBatch(j.u, j.batch, j.n, &st)
+				} else if j.l.X != nil {
 					if j.l.X.Kind == "grpc" {
 						continue // judged by harness/proxy/c03_grpc_test.go
 					}
@@ -483,12 +565,27 @@ func TestVerifC03(t *testing.T) {
 	var n int64
 	seen := map[uint64]bool{}
 	var samples []string
+	// consecutive lines of the same table form a batch for the concurrent pass
+	var batch []*c03Line
+	var batchU *c03Universe
+	var nbatch int64
+	flush := func() {
+		if len(batch) >= 8 {
+			nbatch++
+			if (nbatch+seed)%batchEvery == 0 {
+				jobs <- job{u: batchU, n: nbatch, batch: batch}
+			}
+		}
+		batch = nil
+	}
+	sameTable := func(a, b *c03Line) bool { return fmt.Sprint(a.T, a.D) == fmt.Sprint(b.T, b.D) }
 	err := verifx.EachCase("", func(raw []byte) error {
 		var l c03Line
 		if err := json.Unmarshal(raw, &l); err != nil {
 			return fmt.Errorf("bad line: %v", err)
 		}
 		if l.Universe != nil {
+			flush()
 			cur = l.Universe
 			return nil
 		}
@@ -501,9 +598,16 @@ func TestVerifC03(t *testing.T) {
 		if l.X == nil && cur != nil && len(samples) < 4 && len(l.T) >= 2 && n%4001 == 17 {
 			samples = append(samples, c03Sample(cur, &l))
 		}
-		jobs <- job{cur, &l, n}
+		jobs <- job{u: cur, l: &l, n: n}
+		if l.X == nil && len(l.T) >= 1 {
+			if len(batch) > 0 && (!sameTable(batch[0], &l) || batchU != cur) {
+				flush()
+			}
+			batch, batchU = append(batch, &l), cur
+		}
 		return nil
 	})
+	flush()
 	close(jobs)
 	wg.Wait()
 	if err == nil {
@@ -515,5 +619,6 @@ func TestVerifC03(t *testing.T) {
 	}
 	sort.Strings(samples)
 	verifx.Summary(map[string]any{"lines": n, "lookups": st.lookups, "sni": st.sni, "illposed": st.illposed,
-		"distinct_nontrivial": st.nontrivial, "routed": st.routed, "unrouted": st.unrouted, "histories": st.histories, "samples": samples})
+		"distinct_nontrivial": st.nontrivial, "routed": st.routed, "unrouted": st.unrouted, "histories": st.histories, "samples": samples,
+		"concurrent_tables": st.batches, "concurrent_lookups": st.concLookups})
 }
